@@ -175,6 +175,9 @@ func (gta *GlobalTSOAllocator) GenerateTSO(count uint32) (pdpb.Timestamp, error)
 	// (whit synchronization with other Local TSO Allocators)
 	gta.syncMu.Lock()
 	defer gta.syncMu.Unlock()
+	// Read the dc-locations again now that the lock is held: a Local TSO Allocator that started while this
+	// request was waiting took its maximum under the same lock (GetMaxLocalTSO) and must be synchronized too.
+	dcLocationMap = gta.allocatorManager.GetClusterDCLocations()
 	ctx, cancel := context.WithCancel(context.Background())
 	defer cancel()
 	for i := 0; i < maxRetryCount; i++ {
